@@ -46,9 +46,9 @@ InsertByK(seq, c) == IF seq = <<>> THEN <<c>>
 CompdatCell(w, cs, k, state, rec) ==
     IF \E n \in 1..Len(cs) : cs[n].k = k
     THEN [n \in 1..Len(cs) |-> IF cs[n].k = k
-                               THEN [cs[n] EXCEPT !.state = state, !.rec = rec, !.mult = 1]
+                               THEN [cs[n] EXCEPT !.state = state, !.rec = rec, !.mult = 1, !.skin = 0]
                                ELSE cs[n]]
-    ELSE LET c == [k |-> k, complnum |-> Len(cs) + 1, sort |-> Len(cs), state |-> state, rec |-> rec, mult |-> 1]
+    ELSE LET c == [k |-> k, complnum |-> Len(cs) + 1, sort |-> Len(cs), state |-> state, rec |-> rec, mult |-> 1, skin |-> 0]
          IN IF w \in InputOrder \cup FreeOrder THEN Append(cs, c) ELSE InsertByK(cs, c)
 RECURSIVE CompdatRange(_, _, _, _, _, _)
 CompdatRange(w, cs, k1, k2, state, rec) ==
@@ -58,6 +58,9 @@ Scale(cs, s, f) == [n \in 1..Len(cs) |-> IF Matches(cs[n], s) THEN [cs[n] EXCEPT
 SetState(cs, s, state) == [n \in 1..Len(cs) |-> IF Matches(cs[n], s) THEN [cs[n] EXCEPT !.state = state] ELSE cs[n]]
 
 InLayers(c, k1, k2) == (k1 = 0 \/ c.k >= k1) /\ (k2 = 0 \/ c.k <= k2)
+\* CSKIN gives the connections of a layer range a new skin factor; the connection factor follows the Peaceman
+\* denominator (skin 1 stands for a skin equal to the denominator at skin 0: the factor halves; 0 restores it)
+SetSkin(cs, k1, k2, sk) == [i \in 1..Len(cs) |-> IF InLayers(cs[i], k1, k2) THEN [cs[i] EXCEPT !.skin = sk] ELSE cs[i]]
 Lump(cs, k1, k2, n) == [i \in 1..Len(cs) |-> IF InLayers(cs[i], k1, k2) THEN [cs[i] EXCEPT !.complnum = n] ELSE cs[i]]
 \* an operation is a record [op, well, ...]; st = [conns : well -> seq, pending : well -> factor or 0, lumped : well -> BOOLEAN]
 ApplyOp(st, o) ==
@@ -67,6 +70,7 @@ ApplyOp(st, o) ==
       [] o.op = "WELOPEN" -> [st EXCEPT !.conns[o.well] = SetState(@, o.sel, o.state)]
       \* COMPLUMP gives the connections of a layer range the same completion number
       [] o.op = "COMPLUMP" -> [st EXCEPT !.conns[o.well] = Lump(@, o.k1, o.k2, o.n), !.lumped[o.well] = TRUE]
+      [] o.op = "CSKIN" -> [st EXCEPT !.conns[o.well] = SetSkin(@, o.k1, o.k2, o.skin)]
 EndStep(st) == [conns |-> [w \in Wells |-> IF st.pending[w] = 0 THEN st.conns[w]
                                            ELSE Scale(st.conns[w], [k |-> 0, c1 |-> 0, c2 |-> 0, ij |-> "default"], st.pending[w])],
                 pending |-> [w \in Wells |-> 0], lumped |-> st.lumped]
@@ -90,6 +94,8 @@ Wpimult(w, sel, f) == SelFits(w, sel) /\ Do([op |-> "WPIMULT", well |-> w, sel |
 Welopen(w, sel, s) == SelFits(w, sel) /\ ~AllDefault(sel) /\ Do([op |-> "WELOPEN", well |-> w, sel |-> sel, state |-> s]) /\ UNCHANGED nrec
 Complump(w, k1, k2, n) == /\ w \notin FreeOrder /\ (k1 = 0 \/ k2 = 0 \/ k1 <= k2)
                           /\ Do([op |-> "COMPLUMP", well |-> w, k1 |-> k1, k2 |-> k2, n |-> n]) /\ UNCHANGED nrec
+Cskin(w, k1, k2, sk) == /\ w \notin FreeOrder /\ (k1 = 0 \/ k2 = 0 \/ k1 <= k2)
+                        /\ Do([op |-> "CSKIN", well |-> w, k1 |-> k1, k2 |-> k2, skin |-> sk]) /\ UNCHANGED nrec
 NextStep == step < MaxSteps /\ st' = EndStep(st) /\ step' = step + 1 /\ last' = [op |-> "end"] /\ UNCHANGED <<nops, nrec>>
 SmallSel == {s \in Sel : (s.c1 = 0 \/ s.c2 = 0 \/ s.c1 <= s.c2)}
 Next == \/ NextStep
@@ -98,7 +104,8 @@ Next == \/ NextStep
              \/ \E w \in FreeOrder, c \in FreeCells, s \in States : Compdat(w, c, c, s)
              \/ \E w \in Wells, sel \in SmallSel, f \in {2, 3} : Wpimult(w, sel, f)
              \/ \E w \in Wells, sel \in SmallSel, s \in States : Welopen(w, sel, s)
-             \/ \E w \in Wells, k1, k2 \in 0..NK, n \in 1..2 : Complump(w, k1, k2, n) )
+             \/ \E w \in Wells, k1, k2 \in 0..NK, n \in 1..2 : Complump(w, k1, k2, n)
+             \/ \E w \in Wells, k1, k2 \in 0..NK, sk \in {0, 1} : Cskin(w, k1, k2, sk) )
 Spec == Init /\ [][Next]_vars
 
 (***************************************************************************)
@@ -119,10 +126,11 @@ Targeted(o, c) == CASE o.op = "COMPDAT" -> c.k \in o.k1..o.k2
                     [] o.op = "WPIMULT" -> Matches(c, o.sel)
                     [] o.op = "WELOPEN" -> Matches(c, o.sel)
                     [] o.op = "COMPLUMP" -> InLayers(c, o.k1, o.k2)
+                    [] o.op = "CSKIN" -> InLayers(c, o.k1, o.k2)
                     [] OTHER -> FALSE
 Sub(cs, P(_)) == SelectSeq(cs, P)
 OnlyTargeted ==
-    [][ last'.op \in {"COMPDAT", "WPIMULT", "WELOPEN", "COMPLUMP"} =>
+    [][ last'.op \in {"COMPDAT", "WPIMULT", "WELOPEN", "COMPLUMP", "CSKIN"} =>
           \A w \in Wells :
              IF w # last'.well THEN st'.conns[w] = st.conns[w]
              ELSE LET keep(c) == ~Targeted(last', c)
